@@ -13,7 +13,7 @@ from fractions import Fraction
 
 from .. import nf
 from ..errors import AnalysisError
-from ..interp import Hooks, Interp, Intrinsic, Obj
+from ..interp import Cat, Hooks, Interp, Intrinsic, Obj
 from ..nf import Rat
 
 METHODS_DIR = "torchsde/_core/methods/"
@@ -73,10 +73,32 @@ def make_sde(fname="F", gname="G", time_map=None, sign=1, available=None, extra=
 
     table = {"f": f, "g": g, "f_and_g": f_and_g, "prod": prod_, "g_prod": g_prod, "f_and_g_prod": f_and_g_prod,
              "g_prod_and_gdg_prod": g_prod_and_gdg_prod, "dg_ga_jvp_column_sum": dg_ga}
-    attrs = {name: Intrinsic(f"sde.{name}", fn) for name, fn in table.items()
+    attrs = {name: Intrinsic(f"sde.{name}", _rowwise(fn)) for name, fn in table.items()
              if available is None or name in available}
     attrs.update(extra or {})
     return Obj("sde", attrs=attrs)
+
+
+def _rowwise(fn):
+    """An SDE method applied to states stacked along the batch axis (torch.cat([y_a, y_b], dim=0)) acts on each block:
+    the result is the same stack of the per-block results."""
+    def wrapped(it, a, k, n, fi):
+        vals = list(a) + list(k.values())
+        stacks = [v for v in vals if isinstance(v, Cat) and v.kind == "rows"]
+        if not stacks:
+            return fn(it, a, k, n, fi)
+        width = len(stacks[0].parts)
+        if any(len(s.parts) != width for s in stacks):
+            raise AnalysisError("SDE method called with row-stacked arguments of different block counts")
+        outs = []
+        for i in range(width):
+            ai = [v.parts[i] if isinstance(v, Cat) and v.kind == "rows" else v for v in a]
+            ki = {kk: (v.parts[i] if isinstance(v, Cat) and v.kind == "rows" else v) for kk, v in k.items()}
+            outs.append(fn(it, ai, ki, n, fi))
+        if isinstance(outs[0], tuple):
+            return tuple(Cat("rows", [o[j] for o in outs], 0) for j in range(len(outs[0])))
+        return Cat("rows", outs, 0)
+    return wrapped
 
 
 def _args(a, k, names):
@@ -123,12 +145,26 @@ class StepHooks(Hooks):
     def external_call(self, interp, dotted, args, kwargs, node, fi):
         if dotted == "torch.is_grad_enabled":
             return self.grad_mode
+        if dotted == "torch.cat" and args and isinstance(args[0], (list, tuple)) and all(isinstance(p, Rat) for p in args[0]):
+            dim = kwargs.get("dim", args[1] if len(args) > 1 else Fraction(0))
+            if dim == 0:
+                return Cat("rows", list(args[0]), 0)     # blocks of rows stacked along the batch axis
         return NotImplemented
 
     def tensor_method(self, interp, recv, name, args, kwargs, node, fi):
+        if isinstance(recv, Cat) and recv.kind == "rows":
+            # splitting a stack back into the blocks it was made of; any other re-batching cannot be decided on whole-tensor
+            # formulas (R20.3 decides it entry by entry)
+            dim = kwargs.get("dim", args[1] if len(args) > 1 else Fraction(0))
+            if name == "chunk" and args and int(args[0]) == len(recv.parts) and dim == 0:
+                return tuple(recv.parts)
+            if name in ("unbind", "unflatten", "reshape", "view", "split", "chunk", "flatten"):
+                raise AnalysisError(f"`.{name}` on tensors stacked along the batch axis: which rows end up together is not "
+                                    f"decidable on whole-tensor formulas (rule R20.3 of C20 decides it entry by entry)")
         if name == "dim":
             return Fraction(self.g_ndim)
         return NotImplemented
+
 
 
 def solver_obj(model, cls, sde, bm, options=None, extra_attrs=None):
